@@ -130,6 +130,10 @@ def ops : List (String × Op) := [
       let g ← pGene
       pure (showRT (fun l => s!"{l.length}" ++ String.join (l.map fun s => " " ++ showSkel s))
               (tblGene g (some genome.toList) table))),
+  ("seed", do
+      let t ← tok
+      let seed : Option Int := if t = "~" then none else t.toInt?
+      pure (if seedApplied seedRepaired seed then "ok applied" else "ok ignored")),
   ("locustags", do
       let pre ← pStr
       let step ← pInt
